@@ -324,6 +324,9 @@ type unit struct {
 	Deadline int64    `json:"deadline"` // unix seconds, 0 = none
 	MaxLen   int      `json:"max_len"`  // repeat: longest sequence
 	Rs       int      `json:"rs"`       // maporder: number of iteration starts
+	Dev      int      `json:"dev"`      // maporder: >0 adds the one-deviation pass with deviation values below Dev
+	DevCap   int      `json:"dev_cap"`  // maporder: deviation positions tried per call (0 = all)
+	DevAt    []int    `json:"dev_at"`   // replay of maporder: [k, v] deviation of the second run
 	Iters    int      `json:"iters"`    // race
 	Choices  [][2]int `json:"choices"`  // replay: sparse non-zero choices [index, choice]
 	NChoices int      `json:"nchoices"`
@@ -770,7 +773,12 @@ func mapOrder(u unit) *result {
 				res.Info["schema_x_op_skipped_because_ReadFile_rejects_the_schema"]++
 				continue
 			}
-			if strings.Contains(path, "/schemas/") && first.status() != "ok" {
+			if strings.Contains(path, "/schemas/invalid-") {
+				// a schema that is invalid on purpose: ReadFile and Format succeed, Validate and Generate must fail - under every order
+				if (op.Kind == "validate" || op.Kind == "gen") && first.status() != "error" {
+					res.report("C14|maporder|"+op.Name+"|invalid-schema-accepted", fmt.Sprintf("%s on the invalid schema %s returned %s under map iteration start 0", op.Name, base, first.status()), map[string]any{"sub": "maporder", "schema": path, "ops": []string{op.Name}, "r": []int{0, 0}})
+				}
+			} else if strings.Contains(path, "/schemas/") && first.status() != "ok" {
 				// the harness's own schemas are valid: an operation that fails on them would make every comparison vacuous
 				fatal("%s on the built-in schema %s does not succeed (%s %q): the schema has to be repaired", op.Name, path, first.status(), first.ErrText+first.Panic)
 			}
@@ -809,9 +817,72 @@ func mapOrder(u unit) *result {
 				}
 			}
 			res.Outcomes[op.Name+" | "+base+" | "+first.status()]++
+			if u.Dev > 0 && !reported {
+				mapOrderDeviations(u, res, sc, op, path, base, first)
+			}
 		}
 	}
 	return res
+}
+
+// mapOrderDeviations: every uniform start b in 0..7 combined with ONE deviation - the k-th map iteration begun by the
+// call (parse included) starts at v instead of b - for every k the call reaches and every v below u.Dev.
+func mapOrderDeviations(u unit, res *result, sc *schema, op opDef, path, base string, first obs) {
+	run := func(b, k, v int) (obs, int) {
+		setMapIter(uintptr(b + 1))
+		setMapDev(uintptr(k), uintptr(v))
+		defer setMapIter(0)
+		var o obs
+		if op.Kind == "read" || op.Kind == "format" {
+			o = callSafe(op, nil, sc)
+		} else {
+			f, err := sc.load()
+			if err != nil {
+				return obs{ErrText: "ReadFile: " + err.Error()}, int(mapIterCount())
+			}
+			o = callSafe(op, &f, sc)
+		}
+		return o, int(mapIterCount())
+	}
+	for b := 0; b < 8; b++ {
+		_, K := run(b, 0, 0)
+		res.Info["map_iterations_per_call(max)"] = max(res.Info["map_iterations_per_call(max)"], K)
+		if u.DevCap > 0 && K > u.DevCap {
+			K = u.DevCap
+			res.Info["deviation_positions_capped: "+op.Name+" on "+base]++
+		}
+		for k := 1; k <= K; k++ {
+			for v := 0; v < u.Dev; v++ {
+				if v == b {
+					continue
+				}
+				o, _ := run(b, k, v)
+				res.Evaluations++
+				res.Info["one_deviation_runs"]++
+				if o.sameResult(first) {
+					continue
+				}
+				o2, n2 := run(b, k, v)
+				f2, nf := run(0, 0, 0)
+				c := map[string]any{"sub": "maporder", "schema": path, "ops": []string{op.Name}, "r": []int{0, b}, "dev": []int{k, v}}
+				switch {
+				case !o2.sameResult(o) || !f2.sameResult(first):
+					res.report("C14|repeat|"+op.Name+"|fresh-copy-result-not-reproducible",
+						fmt.Sprintf("%s on %s: repeating the call on a freshly parsed copy under the SAME forced map iteration starts gives a different result (start %d, iteration %d of %d at %d: %s %q then %s %q; uniform start 0, %d iterations: %s %q then %s %q)",
+							op.Name, base, b, k, n2, v, o.status(), o.ErrText, o2.status(), o2.ErrText, nf, first.status(), first.ErrText, f2.status(), f2.ErrText),
+						map[string]any{"sub": "repeat", "schema": path, "seq": []string{op.Name, op.Name}})
+				case o.ErrNil != first.ErrNil || (o.Panic != "") != (first.Panic != ""):
+					res.report("C14|maporder|"+op.Name+"|error-presence-depends-on-map-iteration-order",
+						fmt.Sprintf("%s on %s: uniform map iteration start 0 gives status %s (%q); start %d with the %d-th iteration of the call starting at %d instead gives %s (%q); reproduced twice each", op.Name, base, first.status(), first.ErrText+first.Panic, b, k, v, o.status(), o.ErrText+o.Panic), c)
+				default:
+					res.report("C14|maporder|"+op.Name+"|output-depends-on-map-iteration-order",
+						fmt.Sprintf("%s on %s: start %d with the %d-th iteration starting at %d yields %d bytes (sha %s), uniform start 0 yields %d bytes (sha %s), reproduced twice each; first difference at %s",
+							op.Name, base, b, k, v, len(o.Out), o.hash(), len(first.Out), first.hash(), firstDiffL(string(o.Out), string(first.Out), "deviating", "start 0")), c)
+				}
+				return
+			}
+		}
+	}
 }
 
 // ---------------------------------------------------------------- repetition / aliasing
@@ -1007,8 +1078,11 @@ func replay(u unit) (*result, bool) {
 		sc := loadSchema(u.Schema)
 		op := opByName(u.Ops[0])
 		var os2 []obs
-		for _, r := range u.R {
+		for i, r := range u.R {
 			setMapIter(uintptr(r + 1))
+			if i == 1 && len(u.DevAt) == 2 {
+				setMapDev(uintptr(u.DevAt[0]), uintptr(u.DevAt[1]))
+			}
 			var o obs
 			if op.Kind == "read" || op.Kind == "format" {
 				o = callSafe(op, nil, sc)
@@ -1020,7 +1094,11 @@ func replay(u unit) (*result, bool) {
 				o = callSafe(op, &f, sc)
 			}
 			setMapIter(0)
-			fmt.Printf("%s with map iteration start %d: status %s %q, %d bytes sha %s\n", op.Name, r, o.status(), o.ErrText+o.Panic, len(o.Out), o.hash())
+			dv := ""
+			if i == 1 && len(u.DevAt) == 2 {
+				dv = fmt.Sprintf(" (iteration %d of the call starting at %d instead)", u.DevAt[0], u.DevAt[1])
+			}
+			fmt.Printf("%s with map iteration start %d%s: status %s %q, %d bytes sha %s\n", op.Name, r, dv, o.status(), o.ErrText+o.Panic, len(o.Out), o.hash())
 			os2 = append(os2, o)
 		}
 		bad := !os2[0].sameResult(os2[1])
